@@ -48,6 +48,9 @@ def expo (N D : Nat) : Nat := (N / D).log2 - 52
 /-- the largest exponent of a finite double, in scaled units (`971 + 1074`) -/
 def maxE : Nat := 2045
 
+/-- `sys.float_info.max` -/
+def maxFinite : F64 := finite false (2 ^ 53 - 1) maxE
+
 /-- build a finite value, overflowing to infinity -/
 def mk (neg : Bool) (m e : Nat) : F64 :=
   if e > maxE then inf neg else finite neg m e
@@ -107,23 +110,31 @@ theorem wf_finite_iff (s : Bool) (m e : Nat) :
     WF (finite s m e) ↔ m < 2 ^ 53 ∧ e ≤ maxE ∧ (2 ^ 52 ≤ m ∨ e = 0) := by
   simp [WF, isWF, and_assoc]
 
-def ofBits (b : UInt64) : F64 :=
-  let neg := (b >>> 63) != 0
-  let ex := ((b >>> 52) &&& 0x7FF).toNat
-  let fr := (b &&& 0xFFFFFFFFFFFFF).toNat
+/-- decode an IEEE bit pattern given as a natural number below `2^64`: sign bit 63, biased exponent
+bits 62–52, fraction bits 51–0 (written with `/` and `%` rather than shifts and masks so that
+`omega` can reason about it) -/
+def ofBitsNat (n : Nat) : F64 :=
+  let neg := decide (2 ^ 63 ≤ n)
+  let ex := n / 2 ^ 52 % 2048
+  let fr := n % 2 ^ 52
   if ex = 2047 then (if fr = 0 then inf neg else nan)
   else if ex = 0 then finite neg fr 0
   else finite neg (fr + 2 ^ 52) (ex - 1)
 
-def signMask (neg : Bool) : UInt64 := if neg then 0x8000000000000000 else 0
+def ofBits (b : UInt64) : F64 := ofBitsNat b.toNat
 
-/-- IEEE bit pattern (nan canonicalised to the positive quiet nan `0x7ff8000000000000`) -/
-def toBits : F64 → UInt64
+def signNat (neg : Bool) : Nat := if neg then 2 ^ 63 else 0
+
+/-- IEEE bit pattern as a natural number (nan canonicalised to the positive quiet nan
+`0x7ff8000000000000`) -/
+def toBitsNat : F64 → Nat
   | nan => 0x7FF8000000000000
-  | inf neg => signMask neg ||| 0x7FF0000000000000
+  | inf neg => signNat neg + 0x7FF0000000000000
   | finite neg m e =>
-    if m < 2 ^ 52 then signMask neg ||| m.toUInt64
-    else signMask neg ||| ((e + 1).toUInt64 <<< 52) ||| (m - 2 ^ 52).toUInt64
+    if m < 2 ^ 52 then signNat neg + m
+    else signNat neg + (e + 1) * 2 ^ 52 + (m - 2 ^ 52)
+
+def toBits (x : F64) : UInt64 := (toBitsNat x).toUInt64
 
 /-! ## Exact values -/
 
